@@ -97,6 +97,8 @@ func init() {
 		var seed *models.Item
 		seenDir := ""
 		var hqFake *fakeHQ
+		var viaWorker bool
+		var preIn, preOut chan *models.Item
 		var hqSrv *http.Server
 		stopHQ := func() {
 			if hqSrv != nil {
@@ -167,6 +169,7 @@ func init() {
 					return "harness-error " + err.Error()
 				}
 				cfg.UseHQ = boolean(in, "useHQ", false)
+				viaWorker = boolean(in, "viaWorker", false)
 				if boolean(in, "resetSeen", true) {
 					stopHQ()
 					if cfg.UseHQ {
@@ -235,7 +238,28 @@ func init() {
 					n0 = len(hqFake.seenLog)
 					hqFake.mu.Unlock()
 				}
-				preprocessor.VerifPreprocess(seed)
+				if viaWorker {
+					// through the real stage worker (its goroutine, its channels), as in the running crawler
+					if preIn == nil {
+						config.Get().WorkersCount = 1
+						preIn, preOut = make(chan *models.Item), make(chan *models.Item)
+						if err := preprocessor.Start(preIn, preOut); err != nil {
+							return "harness-error " + err.Error()
+						}
+					}
+					select {
+					case preIn <- seed:
+					case <-time.After(10 * time.Second):
+						return "harness-error the preprocessor worker does not take the seed"
+					}
+					select {
+					case seed = <-preOut:
+					case <-time.After(20 * time.Second):
+						return "hang the preprocessor worker did not hand the seed on"
+					}
+				} else {
+					preprocessor.VerifPreprocess(seed)
+				}
 				if cfg.UseHQ && hqFake != nil {
 					var sent []string
 					hqFake.mu.Lock()
